@@ -27,10 +27,11 @@
 package main
 
 import (
-	"encoding/binary"
 	"encoding/json"
 	"errors"
 	"fmt"
+	"math"
+	"strconv"
 	"time"
 
 	"github.com/lesismal/nbio/nbhttp"
@@ -46,6 +47,11 @@ type fragSpec struct {
 	Fin   bool   `json:"fin"`
 	Len   int    `json:"len"`
 	Class string `json:"class,omitempty"` // content class (default ramp)
+	// Decl (decimal, "" = honest header): the payload length the header announces although only Len
+	// payload bytes follow on the wire (the frame is cut off; declared.go). Form forces a length
+	// encoding (wsgen.Form16 / Form64; 0 = the minimal one).
+	Decl string `json:"decl,omitempty"`
+	Form int    `json:"form,omitempty"`
 }
 
 type caseSpec struct {
@@ -72,7 +78,11 @@ func (c *caseSpec) name() string {
 	}
 	s := fmt.Sprintf("%s L=%d recv=%s policy=%s handlers=%s", c.Family, c.L, role, []string{"exact", "pooled", "stale"}[c.Policy], c.Handlers)
 	for _, f := range c.Frags {
-		s += fmt.Sprintf(" [op=%x fin=%v len=%d]", f.Op, f.Fin, f.Len)
+		s += fmt.Sprintf(" [op=%x fin=%v len=%d", f.Op, f.Fin, f.Len)
+		if f.Decl != "" {
+			s += fmt.Sprintf(" declared=%s form=%d", f.Decl, f.Form)
+		}
+		s += "]"
 	}
 	if c.Inflated > 0 || c.Family == "inflate" {
 		s += fmt.Sprintf(" inflated=%d content=%s level=%d split=%d", c.Inflated, c.Content, c.Level, c.Split)
@@ -136,11 +146,28 @@ func build(c *caseSpec) *built {
 			if class == "" {
 				class = "ramp"
 			}
-			f := wsgen.Frame{Fin: fs.Fin, Op: fs.Op, Masked: c.Server, Key: [4]byte{9, 8, 7, byte(i)}, Payload: wsgen.Content(class, fs.Len, true, i*31)}
+			f := wsgen.Frame{Fin: fs.Fin, Op: fs.Op, Masked: c.Server, Key: [4]byte{9, 8, 7, byte(i)}, Payload: wsgen.Content(class, fs.Len, true, i*31), Form: fs.Form}
+			size := fs.Len
+			if fs.Decl != "" {
+				d, err := strconv.ParseUint(fs.Decl, 10, 64)
+				if err != nil {
+					panic("bad declared length " + fs.Decl)
+				}
+				f.HasDecl, f.Decl = true, d
+				size = math.MaxInt
+				if d < math.MaxInt {
+					size = int(d)
+				}
+			}
 			b.frames = append(b.frames, f)
 			if fs.Op <= wsgen.OpBinary {
-				b.msgSize += fs.Len
+				if b.msgSize += size; b.msgSize < 0 {
+					b.msgSize = math.MaxInt // saturate
+				}
 				nData++
+			}
+			if !f.IsControl() && size > b.maxFrame {
+				b.maxFrame = size
 			}
 		}
 		if nData > 1 {
@@ -153,6 +180,9 @@ func build(c *caseSpec) *built {
 		}
 	}
 	b.wire = wsgen.Encode(b.frames)
+	if c.Family == "declared" {
+		return b // judged by feedDeclared (declared.go); the reference assembler has nothing to assemble
+	}
 	if !comp || c.Inflated <= 4*c.L+64 {
 		// (the reference verdict of a bomb would inflate MiBs per case for nothing)
 		b.v = wsgen.Judge(b.frames, wsgen.Rules{Compression: comp, ToServer: c.Server})
@@ -167,22 +197,19 @@ func polName(p int) string {
 	return "pooled"
 }
 
-// close1009 reports whether the reply wire contains a close frame with status 1009.
+// close1009 reports whether the reply wire ends with a well-formed close frame with status 1009
+// (judgeReply, declared.go); other says what was found instead.
 func close1009(ep *wsgen.Endpoint) (found bool, other string) {
-	replies, _, err := wsgen.ParseFrames(ep.Fake.Wire())
-	if err != nil {
-		return false, "reply wire not framed: " + err.Error()
+	ri := judgeReply(ep)
+	switch {
+	case ri.problem != "":
+		return false, "malformed reply: " + ri.problem
+	case ri.closes == 0:
+		return false, fmt.Sprintf("%d reply frames, no close frame", ri.frames)
+	case ri.code != 1009:
+		return false, fmt.Sprintf("close frame with body %q", ri.closeBody)
 	}
-	for i := range replies {
-		f := &replies[i]
-		if f.Op == wsgen.OpClose {
-			if len(f.Payload) >= 2 && binary.BigEndian.Uint16(f.Payload) == 1009 && f.Fin {
-				return true, ""
-			}
-			other = fmt.Sprintf("close frame with body %q", f.Payload)
-		}
-	}
-	return false, other
+	return true, ""
 }
 
 // feedOnce judges one segmentation of a receive-side case.
@@ -258,10 +285,17 @@ func feedOnce(c *caseSpec, b *built, seg wsgen.Seg, p *vkit.Part) (res, class st
 				return fmt.Sprintf("over-limit-delivered via=%s handler=M truncated|an OnMessage callback (%d bytes) fired for a message of %d bytes; %s", b.via, len(e.Payload), b.msgSize, desc()), "over-limit-delivered", r
 			}
 		}
+		if ri := judgeReply(ep); ri.problem != "" {
+			return fmt.Sprintf("close-reply-malformed via=%s|%s; %s", b.via, ri.problem, desc()), "close-reply-malformed", r
+		}
 		if ok, other := close1009(ep); !ok {
 			return fmt.Sprintf("over-limit-no-1009 via=%s|no close frame with status 1009 was written (%s); %s", b.via, other, desc()), "over-limit-no-1009", r
 		}
 		return "", "over-limit-refused-1009", r
+	}
+	// whatever else was written back (pongs, a close answering a rejected message) must be well-formed
+	if ri := judgeReply(ep); ri.problem != "" {
+		return fmt.Sprintf("close-reply-malformed via=%s|%s; %s", b.via, ri.problem, desc()), "close-reply-malformed", r
 	}
 	// ---- not over the limit
 	if r.Failed() {
@@ -554,7 +588,7 @@ func run(tier string, sh *vkit.Shard, p *vkit.Part) {
 					for _, pol := range policies {
 						for _, h := range handlers {
 							for _, op := range []byte{wsgen.OpText, wsgen.OpBinary} {
-								runBase(&caseSpec{Family: "single", L: L, Server: server, Policy: pol, Handlers: h, Frags: []fragSpec{{op, true, n, ""}}}, p, segFor())
+								runBase(&caseSpec{Family: "single", L: L, Server: server, Policy: pol, Handlers: h, Frags: []fragSpec{{Op: op, Fin: true, Len: n}}}, p, segFor())
 							}
 						}
 					}
@@ -595,9 +629,9 @@ func run(tier string, sh *vkit.Shard, p *vkit.Part) {
 									if i == 0 {
 										op = wsgen.OpBinary
 									}
-									fr = append(fr, fragSpec{op, i == len(tp)-1, n, ""})
+									fr = append(fr, fragSpec{Op: op, Fin: i == len(tp)-1, Len: n})
 									if i == 0 && ping >= 0 {
-										fr = append(fr, fragSpec{wsgen.OpPing, true, ping, ""})
+										fr = append(fr, fragSpec{Op: wsgen.OpPing, Fin: true, Len: ping})
 									}
 								}
 								o := segFor()
@@ -639,15 +673,17 @@ func run(tier string, sh *vkit.Shard, p *vkit.Part) {
 					for _, server := range roles {
 						for _, pol := range []int{0, 1} {
 							class := "ramp"
-							recvControl(&caseSpec{Family: "recv-control", L: L, Server: server, Policy: pol, Handlers: "msg", Frags: []fragSpec{{op, true, n, class}}}, p)
+							recvControl(&caseSpec{Family: "recv-control", L: L, Server: server, Policy: pol, Handlers: "msg", Frags: []fragSpec{{Op: op, Fin: true, Len: n, Class: class}}}, p)
 							recvControl(&caseSpec{Family: "recv-control-in-message", L: L, Server: server, Policy: pol, Handlers: "msg",
-								Frags: []fragSpec{{wsgen.OpBinary, false, 1, ""}, {op, true, n, class}}}, p)
+								Frags: []fragSpec{{Op: wsgen.OpBinary, Len: 1}, {Op: op, Fin: true, Len: n, Class: class}}}, p)
 						}
 					}
 				})
 			}
 		}
 	}
+	// ---- A': frames refused on their declared length alone (declared.go)
+	declaredItems(thorough, item, p)
 	// ---- D': send side
 	item("send-control", func() {
 		for _, server := range roles {
@@ -670,11 +706,11 @@ func run(tier string, sh *vkit.Shard, p *vkit.Part) {
 					for _, server := range roles {
 						for _, pol := range []int{0, 1} {
 							readLimitCase(&caseSpec{Family: "read-limit", Server: server, Policy: pol, Handlers: "msg", ReadLimit: rl, Chunk: chunk,
-								Frags: []fragSpec{{wsgen.OpBinary, true, n, ""}}}, p)
+								Frags: []fragSpec{{Op: wsgen.OpBinary, Fin: true, Len: n}}}, p)
 							// many small frames never trip the limit
 							var fr []fragSpec
 							for i := 0; i < 40; i++ {
-								fr = append(fr, fragSpec{wsgen.OpBinary, true, 20, ""})
+								fr = append(fr, fragSpec{Op: wsgen.OpBinary, Fin: true, Len: 20})
 							}
 							if n == 10 {
 								readLimitCase(&caseSpec{Family: "read-limit-small-frames", Server: server, Policy: pol, Handlers: "msg", ReadLimit: rl, Chunk: chunk, Frags: fr}, p)
@@ -717,7 +753,11 @@ func replay(scenario string, input json.RawMessage) string {
 		if c.Seg.Kind == "" {
 			c.Seg.Kind = "one"
 		}
-		res, class, r := feedOnce(&c, b, c.Seg, part)
+		feed := feedOnce
+		if c.Family == "declared" {
+			feed = feedDeclared
+		}
+		res, class, r := feed(&c, b, c.Seg, part)
 		fmt.Printf("wire %d bytes; Parse calls=%d err=%v closed=%v outcome=%s\n", len(b.wire.Bytes), r.Calls, r.Err, r.ImplClosed, class)
 		return res
 	}
